@@ -94,7 +94,18 @@ def gen(rng, tier, dist):
             groups.append(perms_of(keep, 8))
         gtxt = ";".join("/".join((".".join("%d" % j for j in pm) or "-") for pm in g) for g in groups)
         # edges the oracle checks: (dependee path, dependent path)
-        edges = sorted({(ref.flat[d].path, p) for p in paths for d in deps_of(ref, port_of[p])})
+        # (also the references of ports without a line that can be reached from a line: the order
+        #  has to hold through them - "including files where a depended-on port is itself absent")
+        eset, todo, seen_i = set(), [port_of[p] for p in paths], set()
+        while todo:
+            i = todo.pop()
+            if i in seen_i:
+                continue
+            seen_i.add(i)
+            for d in deps_of(ref, i):
+                eset.add((ref.flat[d].path, ref.flat[i].path))
+                todo.append(d)
+        edges = sorted(eset)
         etxt = ",".join("%s>%s" % e for e in edges) or "-"
         out.append("perm %s %s %s %s %s %s %d %s" % (tree, flat, ops, gtxt, apro, mops, k, etxt))
         dist["lines=%d" % min(k, 9)] = dist.get("lines=%d" % min(k, 9), 0) + 1
@@ -142,6 +153,9 @@ def spec_check(case, impl):
     if n != want_n:
         return "lines: the savefile has %d message lines, the state calls for %d" % (n, want_n)
     edges = [] if f[8] == "-" else [tuple(e.split(">")) for e in f[8].split(",")]
+    refs = {}
+    for a, b in edges:
+        refs.setdefault(b, []).append(a)
     perms = [[([] if pm == "-" else [int(x) for x in pm.split(".")]) for pm in g.split("/")] for g in f[4].split(";")]
     for gi, g in enumerate(groups):
         if any(p is None for p in g):
@@ -158,9 +172,20 @@ def spec_check(case, impl):
             if sorted(order) != sorted(order0) or len(order) != want_len:
                 return "order: the loader handed out %d of %d messages (%s)" % (len(order), want_len, ">".join(order))
             pos = {p: j for j, p in enumerate(order)}
-            for a, b in edges:
-                if a in pos and b in pos and pos[a] > pos[b]:
-                    return "order: %s is applied after %s, which depends on it (file order %s)" % (a, b, perms[gi][pi])
+            for b in order:
+                # everything b refers to, directly or through ports that have no line in this file
+                todo, seen = list(refs.get(b, [])), set()
+                while todo:
+                    a = todo.pop()
+                    if a in seen or a == b:
+                        continue
+                    seen.add(a)
+                    if a in pos:
+                        if pos[a] > pos[b]:
+                            return "order: %s is applied after %s, which depends on it%s (file order %s)" % (
+                                a, b, "" if a in refs.get(b, []) else " through ports without a line", perms[gi][pi])
+                    else:
+                        todo += refs.get(a, [])
     return None
 
 def nontrivial(case, impl):
